@@ -464,6 +464,76 @@ fn replay_line(env: &Env, toks: &[u64]) -> Option<Toks> {
     }
 }
 
+/// gauges as scraped over HTTP (`GET /metrics` through the real request handler) while the DHCP
+/// side holds the lease store: rows are written under the lock BEFORE the scrape starts, the lock
+/// is released a little later; the scrape must report the store as it is then.  Printed as a
+/// kind-3 line (all expiries are a thousand seconds away from now, so no second boundary matters).
+fn case_scrape_under_contention(env: &Env, k0: usize, k1: usize) -> Option<Toks> {
+    let dhcp = env.dhcp.as_ref()?;
+    let pool = dhcp.verif_pool();
+    let client = Ipv4Addr::LOCALHOST.with_port(40004);
+    let ins = |p: &Pool, i: usize, active: bool| {
+        let now = now_secs() as i64;
+        let (s, e) = if active { (now - 10, now + 1000) } else { (now - 2000, now - 1000) };
+        let _ = p.verif_conn().execute(
+            "INSERT OR REPLACE INTO leases (address, clientid, start, expiry) VALUES (?1, ?2, ?3, ?4)",
+            rusqlite::params![Ipv4Addr::from(0x0a01_0000u32 + i as u32).to_string(), vec![7u8, i as u8], s, e],
+        );
+    };
+    let body = env.rt.block_on(async {
+        {
+            let p = pool.lock().await;
+            let _ = p.verif_conn().execute("DELETE FROM leases", []);
+            for i in 0..k0 {
+                ins(&p, i, i % 2 == 0);
+            }
+        }
+        // a first, uncontended scrape
+        let _ = erbium::http::verif::serve(env.conf.clone(), "GET", "/metrics", client, dhcp.clone()).await;
+        let (tx, rx) = tokio::sync::oneshot::channel::<()>();
+        let pool2 = pool.clone();
+        let holder = tokio::spawn(async move {
+            let p = pool2.lock().await;
+            for i in k0..k0 + k1 {
+                ins(&p, i, i % 3 != 0);
+            }
+            let _ = tx.send(());
+            tokio::time::sleep(std::time::Duration::from_millis(250)).await;
+            drop(p);
+        });
+        let _ = rx.await;
+        let r = erbium::http::verif::serve(env.conf.clone(), "GET", "/metrics", client, dhcp.clone()).await;
+        let _ = holder.await;
+        r
+    });
+    let (status, body) = body;
+    let text = String::from_utf8_lossy(&body).to_string();
+    let gauge = |name: &str| -> Option<u64> {
+        text.lines().find(|l| l.starts_with(name) && !l.starts_with('#')).and_then(|l| l.split_whitespace().nth(1)).and_then(|v| v.parse::<f64>().ok()).map(|v| v as u64)
+    };
+    let exps: Vec<i64> = {
+        let p = env.rt.block_on(pool.lock());
+        let conn = p.verif_conn();
+        let mut st = conn.prepare("SELECT expiry FROM leases ORDER BY address").ok()?;
+        let x = st.query_map([], |r| r.get::<_, i64>(0)).ok()?.collect::<Result<Vec<_>, _>>().ok()?;
+        x
+    };
+    let mut t = Toks::new();
+    t.n(3).n(now_secs()).n(exps.len() as u64);
+    for e in &exps {
+        t.n(*e as u64);
+    }
+    match (status, gauge("dhcp_active_leases"), gauge("dhcp_expired_leases")) {
+        (200, Some(a), Some(e)) => {
+            t.n(0).n(a).n(e);
+        }
+        _ => {
+            t.n(1);
+        }
+    }
+    Some(t)
+}
+
 fn main() {
     harness_main("C20", run);
 }
@@ -494,6 +564,13 @@ pub fn run(args: &Args, out: &mut dyn Write) -> Stats {
         if let Some(t) = case_gauges(offs) {
             writeln!(out, "{}", t.0).unwrap();
             stats.bump("gauges.fixed");
+        }
+    }
+    // scrapes while the DHCP side holds the store
+    for (k0, k1) in [(0usize, 2usize), (3, 1), (2, 4), (5, 3)] {
+        if let Some(t) = case_scrape_under_contention(&env, k0, k1) {
+            writeln!(out, "{}", t.0).unwrap();
+            stats.bump("gauges.scraped-under-contention");
         }
     }
     // every byte value once as a one-octet host name (pure renderer when present, else served)
